@@ -16,7 +16,7 @@ CHECKS = {
    "Loss-free network; 'about 20 minutes' read as 21 minutes.", "DESIGN.md section 6, C14"),
   "C01": ("E1-simnet-explorer", "model_checking",
    "exhaustive enumeration of small real-node networks (shapes, join orders, writer/reader pairs, data kinds, IP plans) crossed with every admissible crash set, on the simulated network",
-   "Networks of 1..3 servers + 0..1 clients (quick) / 1..4 + 0..2 (thorough) built by real joins: for every (writer, reader) pair and each of six data kinds the put runs through the public API, the acknowledging set is read from the datagram log, every crash set that leaves an acknowledging node other than the reader alive (and the reader a live contact) is applied in its own world, and the reader's public-API lookup must return the value; variants with a reader lookup already in flight, a lookup 60 s later and two overlapping callers; thorough adds single latency deviations and fixed 20- and 50-node shapes.",
+   "Networks of 1..3 servers + 0..1 clients (quick) / 1..4 + 0..2 (thorough) built by real joins: for every (writer, reader) pair and each of six data kinds the put runs through the public API, the acknowledging set is read from the datagram log, every crash set that leaves an acknowledging node other than the reader alive (and the reader a live contact) is applied in its own world, and the reader's public-API lookup must return the value; variants with a reader lookup already in flight, a lookup 60 s later, two overlapping callers, a reader whose lookup cache for the key predates the last joiner, and a reader with its own put for the key in flight; thorough adds single latency deviations and fixed 20- and 50-node shapes.",
    "Honest nodes, latencies below the request timeout; the 50..300-node success-rate clause is statistical and not decided.", "DESIGN.md section 6, C01"),
   "C13": ("E1-simnet-explorer", "model_checking",
    "exhaustive enumeration of join orders, start timings, bootstrap-list shapes and IP plans over networks of real nodes on the simulated network",
@@ -36,7 +36,7 @@ CHECKS = {
    "Scripted storers ack everything in part 1.", "DESIGN.md section 6, C17"),
   "C06": ("E1-simnet-explorer", "model_checking",
    "exhaustive enumeration of call overlaps and deviation-bounded exploration of fault schedules on a real node over a simulated network; completion oracle at a virtual-time horizon",
-   "A real node with three peers: every ordered pair of the 13 API calls with the second placed before every network event of the first and inside/outside the cache window; every single call under every single (thorough: pair of) dropped / duplicated / late datagram and every peer failure point, against scripted and against real server peers; unread sync iterators held open. Every call must resolve exactly once within 120 virtual seconds and the actor must survive.",
+   "A real node with three peers: every ordered pair of the 13 API calls with the second placed before every network event of the first and inside/outside the cache window; every single call under every single (thorough: pair of) dropped / duplicated / late datagram and every peer failure point, against scripted and against real server peers; every ordered pair of put/announce calls on different targets queued together under every single fault; unread sync iterators held open. Every call must resolve exactly once within 120 virtual seconds and the actor must survive.",
    "Latency 10 ms, late = 900 ms; three peers.", "DESIGN.md section 6, C06"),
   "C02": ("E1-simnet-explorer", "model_checking",
    "exhaustive enumeration of Byzantine answer assignments and arrival orders against a real reader node over a simulated network, independent re-verification of everything the API surfaces",
@@ -44,15 +44,15 @@ CHECKS = {
    "Forgery classes rather than all byte strings; oracle trusts sha1_smol and ed25519-dalek verification.", "DESIGN.md section 6, C02"),
   "C07": ("E1-simnet-explorer", "model_checking",
    "exhaustive enumeration of endpoint behaviours around the K=20 boundary against a real initiator over a simulated network; verdict computed from the lookup's own datagram trace",
-   "A real node runs each lookup kind over 3..26 scripted endpoints with BEP42-secure ids; every choice of up to 2 (quick) / 3 (thorough) varying endpoints at ranks 1,2,19,20,21,22 x 7 list behaviours x 3 initial-knowledge shapes is executed (thorough adds every single latency deviation on the base shapes); closure, the reported / stored-to set and the never-ask-again rule are decided from the trace alone.",
+   "A real node runs each lookup kind over 3..26 scripted endpoints with BEP42-secure ids; every choice of up to 2 (quick) / 3 (thorough) varying endpoints at ranks 1,2,19,20,21,22 x 7 list behaviours x 3 initial-knowledge shapes is executed, plus get_immutable of a 1000-byte value whose holder's ~1.7 kB answer is the only source of the closest node, plus every single latency deviation (answers overtaking each other) on the base shapes; closure, the reported / stored-to set and the never-ask-again rule are decided from the trace alone.",
    "Loss-free network; sizes above 26 are represented by the ranks relative to the 20-boundary.", "DESIGN.md section 6, C07"),
   "C08": ("E1-simnet-explorer", "model_checking",
    "exhaustive enumeration of storer behaviours and reply arrival orders against a real writer node over a simulated network, oracle computed from the network log",
-   "A real writer runs every put kind against 1-3 (quick) / 1-4 (thorough) scripted storing endpoints under every assignment of {no token, ack, 203, 205, 301, 302, 201, silence, late ack} and every arrival order, plus replica sets of 255/256/257/300 nodes through extra_nodes; the result is judged against which acknowledgements and 301/302 replies the log shows were delivered in time, and every write datagram is checked to go to a token issuer with its own token.",
+   "A real writer runs every put kind against 1-3 (quick) / 1-4 (thorough) scripted storing endpoints under every assignment of {no token, ack, 203, 205, 301, 302, 201, silence, late ack, ack flagged ro=1} and every arrival order, plus replica sets of 255/256/257/300 nodes through extra_nodes; the result is judged against which acknowledgements and 301/302 replies the log shows were delivered in time, and every write datagram is checked to go to a token issuer with its own token.",
    "Release arithmetic (no overflow checks); replies faster than 500 ms count as in time.", "DESIGN.md section 6, C08"),
   "C09": ("E1-simnet-explorer", "model_checking",
    "deviation-bounded exhaustive exploration of adversarial injections and reply faults on a real node over a simulated network, differential oracle against the unperturbed run",
-   "A real node (real actor thread, socket layer and codec) runs a lookup and a put over scripted endpoints; at every network event an adversary may inject every (kind x guessable transaction id x wrong source) message, and every genuine reply may be duplicated or delayed past its timeout; all single deviations (quick) and pairs over the sharpest kinds (thorough) are enumerated and each execution's observable outcome (call results, routing tables, cached nodes, address votes, stored values) must equal the unperturbed one.",
+   "A real node (real actor thread, socket layer and codec) runs a lookup and a put over scripted endpoints; at every network event an adversary may inject every (kind x guessable transaction id x wrong source) message, and every genuine reply may be duplicated, lost, delayed past its timeout or both; all single deviations (quick), pairs of injections over the sharpest kinds (thorough) and all pairs of reply fates with a silent node keeping the lookup open (at-most-once oracle) are enumerated and each execution's observable outcome (call results, routing tables, cached nodes, address votes, stored values) must equal the unperturbed one.",
    "One operation scenario (get then put, 3 endpoints); forged messages from the right address are outside the oracle.", "DESIGN.md section 6, C09"),
   "C12": ("E2-explicit-state", "model_checking",
    "explicit-state BFS over operation sequences whose state is the real RoutingTable plus the virtual clock; invariants on every state, transition relation on every step",
